@@ -97,6 +97,8 @@ func main() {
 		genDeframe(out, rnd, thorough)
 	case "big":
 		genBig(out, rnd, thorough)
+	case "registry":
+		genRegistry(out, rnd, thorough)
 	default:
 		fmt.Fprintln(os.Stderr, "unknown family", family)
 		os.Exit(2)
